@@ -3,10 +3,13 @@
    splitEqual (chunks concatenate back to the fiber; every chunk but the last has exactly n
    elements, none is empty) on the very function the interpreter uses (Rt.chunks), and the
    leader/follower boundary law ("no pair of elements that must meet is separated or met
-   twice").  NOT a theorem yet (hence _partial): the statement about whole emitted programs;
+   twice"); and (theorems C03_rt_...) the laws of the runtime operations themselves (Rt.split_equal,
+   Rt.split_nonuniform, Rt.merge1, Rt.flatten1, Rt.unflatten1, Rt.tswizzle) for tries of ANY size: occupancy
+   splits are undone by mergeRanks, flattenRanks by unflattenRanks, swizzleRanks by any permutation relocates every payload to the permuted path and is undone
+   by the inverse permutation.  NOT a theorem yet (hence _partial): the statement about whole emitted programs;
    that half is kernel-evaluated execution of every emitted program (tools/props/c03.py). *)
-From Coq Require Import ZArith List Sorted.
-Require Import TV.Model.Rt TV.Proofs.OccLaws.
+From Coq Require Import ZArith List Sorted Permutation.
+Require Import TV.Model.Rt TV.Proofs.OccLaws TV.Proofs.RtLaws.
 Import ListNotations.
 
 Theorem C03_split_equal_concat_partial : forall (A : Type) (n : nat), (0 < n)%nat ->
@@ -22,3 +25,87 @@ Proof. intros A n Hn fuel l Hl. split; [apply chunks_sizes; assumption|apply chu
 Theorem C03_leader_follower_meet_partial : forall bs b c, StronglySorted Z.lt bs -> in_part bs b c ->
   part_of bs c = Some b /\ forall b', in_part bs b' c -> b' = b.
 Proof. exact leader_follower_meet. Qed.
+
+(* ---- laws of the modelled runtime operations (Proofs/RtLaws.v) ---- *)
+Open Scope Z_scope.
+
+(* (d) splitEqual(n) then mergeRanks is the identity *)
+Theorem C03_rt_split_equal_merge1 : forall n l, 0 < n -> int_sorted l ->
+  exists t', split_equal n (TNode l) = Some t' /\ merge1 t' = Some (TNode l).
+Proof. exact split_equal_merge1. Qed.
+
+Theorem C03_rt_split_equal_partition : forall n l, 0 < n -> int_sorted l ->
+  exists parts, split_equal n (TNode l) = Some (TNode parts) /\
+    concat (lowers parts) = l /\
+    int_sorted parts /\
+    Forall (fun pt => exists c x ch, pt = (c, TNode ((c, x) :: ch)) /\ (length ((c, x) :: ch) <= Z.to_nat n)%nat) parts /\
+    (forall pre pt post, parts = pre ++ pt :: post -> post <> [] -> length (tchildren (snd pt)) = Z.to_nat n).
+Proof. exact split_equal_partition. Qed.
+
+(* (e) splitNonUniform(boundaries): consecutive non-empty pieces, element c lands in partition part_of zs c *)
+Theorem C03_rt_split_nonuniform_partition : forall zs l, StronglySorted Z.lt zs -> int_sorted l ->
+  match zs with b0 :: _ => forall ct, In ct l -> b0 <= kz ct | [] => l = [] end ->
+  exists parts, split_nonuniform (map VInt zs) (TNode l) = Some (TNode parts) /\
+    concat (lowers parts) = l /\
+    int_sorted parts /\
+    Forall (fun pt => exists b sel, pt = (VInt b, TNode sel) /\ sel <> [] /\ In b zs /\
+                                    forall ct, In ct sel <-> In ct l /\ in_part zs b (kz ct)) parts /\
+    (forall ct, In ct l -> exists b sel, In (VInt b, TNode sel) parts /\ In ct sel /\ part_of zs (kz ct) = Some b).
+Proof. exact split_nonuniform_partition. Qed.
+
+Theorem C03_rt_split_nonuniform_merge1 : forall zs l, StronglySorted Z.lt zs -> int_sorted l ->
+  match zs with b0 :: _ => forall ct, In ct l -> b0 <= kz ct | [] => l = [] end ->
+  exists t', split_nonuniform (map VInt zs) (TNode l) = Some t' /\ merge1 t' = Some (TNode l).
+Proof. exact split_nonuniform_merge1. Qed.
+
+(* (f) flattenRanks then unflattenRanks is the identity; paths are kept (first two coordinates paired), in
+   strictly increasing lexicographic order of the tuples *)
+Theorem C03_rt_flatten1_unflatten1 : forall l, wf2 l ->
+  exists t', flatten1 (TNode l) = Some t' /\ unflatten1 t' = Some (TNode l).
+Proof. exact flatten1_unflatten1. Qed.
+
+Theorem C03_rt_flatten1_paths : forall l, wf2 l ->
+  flatten1 (TNode l) = Some (TNode (fl2 l)) /\
+  paths (TNode (fl2 l)) = map pair2 (paths (TNode l)) /\
+  Forall tuple_key (fl2 l) /\ StronglySorted (fun x y => vltb (fst x) (fst y) = true) (fl2 l).
+Proof.
+  intros l H. split; [apply flatten1_eq; exact H|]. split; [apply flatten1_paths; exact H|apply flatten1_lex_sorted; exact H].
+Qed.
+
+(* (g) swizzleRanks by the identity order is the identity on well-formed depth-n tries *)
+Theorem C03_rt_tswizzle_id : forall n t, wft n t \/ t = TNode [] -> tswizzle (seq 0 n) t = t.
+Proof. exact tswizzle_id. Qed.
+
+(* (g) swizzleRanks by ANY permutation of the n ranks: the result is again well-formed, holds at the permuted
+   path exactly what the original holds at the path, and swizzling by the inverse permutation restores the trie *)
+Theorem C03_rt_tswizzle_lookup : forall perm n t zs, Permutation perm (seq 0 n) -> wft n t -> length zs = n ->
+  wft n (tswizzle perm t) /\
+  tlookup (nth_perm perm (map VInt zs) VNone) (tswizzle perm t) = tlookup (map VInt zs) t.
+Proof. intros perm n t zs HP H Hzs. split; [apply (tswizzle_wft perm n); assumption|apply (tswizzle_lookup perm n); assumption]. Qed.
+
+Theorem C03_rt_tswizzle_inverse : forall perm perm' n t, Permutation perm (seq 0 n) -> Permutation perm' (seq 0 n) ->
+  (forall zs : list Z, length zs = n -> nth_perm perm' (nth_perm perm zs 0) 0 = zs) ->
+  wft n t -> tswizzle perm' (tswizzle perm t) = t.
+Proof. exact tswizzle_inverse. Qed.
+
+Theorem C03_rt_tswizzle_transpose_involution : forall t, wft 2 t -> tswizzle [1; 0]%nat (tswizzle [1; 0]%nat t) = t.
+Proof. exact tswizzle_transpose_involution. Qed.
+
+(* tries in canonical form are determined by their payloads *)
+Theorem C03_rt_wft_ext : forall n t1 t2, wft n t1 -> wft n t2 ->
+  (forall zs, length zs = n -> tlookup (map VInt zs) t1 = tlookup (map VInt zs) t2) -> t1 = t2.
+Proof. exact wft_ext. Qed.
+
+(* (d)(e)(f) at any depth: the interpreter applies the operations to every fiber at depth d (Rt.tmap_depth) *)
+Theorem C03_rt_split_equal_merge1_depth : forall d n t, 0 < n -> at_depth d (fiber_ok int_sorted) t ->
+  exists t', tmap_depth d (split_equal n) t = Some t' /\ tmap_depth d merge1 t' = Some t.
+Proof. exact split_equal_merge1_depth. Qed.
+
+Theorem C03_rt_split_nonuniform_merge1_depth : forall d zs t, StronglySorted Z.lt zs ->
+  at_depth d (fiber_ok (fun l => int_sorted l /\ match zs with b0 :: _ => forall ct, In ct l -> b0 <= kz ct | [] => l = [] end)) t ->
+  exists t', tmap_depth d (split_nonuniform (map VInt zs)) t = Some t' /\ tmap_depth d merge1 t' = Some t.
+Proof. exact split_nonuniform_merge1_depth. Qed.
+
+Theorem C03_rt_flatten1_unflatten1_depth : forall d t, at_depth d (fiber_ok wf2) t ->
+  exists t', tmap_depth d flatten1 t = Some t' /\ tmap_depth d unflatten1 t' = Some t.
+Proof. exact flatten1_unflatten1_depth. Qed.
